@@ -134,6 +134,10 @@ def families(rng, quick):
             "print(f('a/b c'), split('a/b'), sorted(k for k in ('os', 'sys', 'json', 'abc', 'join', 'dumps') if k in globals()))\n")
     for name, src in sql_extra_programs():
         add("sql-parameterization", name, src)
+    for name, src in sql_printf_programs(rng, 16 if quick else 200):
+        add("sql-parameterization", name, src)
+    for name, src in import_alias_programs(rng, 10 if quick else 120):
+        add("order-imports", name, src)
     # ---- sql-parameterization (benign parameter values): see sql_programs()
     for name, src in sql_programs(rng, 40 if quick else 400):
         add("sql-parameterization", name, src)
@@ -165,6 +169,126 @@ def py_literal(text, q, prefix=""):
     if q == "'":
         body = body.replace("'", "\\'")
     return prefix + q + body + q
+
+
+IMPORTABLE = {"os.path": ["join", "basename", "splitext", "dirname"], "json": ["dumps", "loads"], "math": ["floor", "ceil", "sqrt"],
+              "string": ["capwords"], "posixpath": ["normpath", "isabs"], "itertools": ["chain", "count"]}
+
+
+def import_alias_programs(rng, n):
+    """import blocks in which a name is imported from its module under one to three spellings (plain, `as a`, `as b`), possibly in
+    separate statements, next to plain imports; every binding is used afterwards (bound names are all distinct, so the order of
+    the statements does not matter for the original program)"""
+    out = []
+    for k in range(n):
+        mods = rng.sample(sorted(IMPORTABLE), rng.randint(1, 3))
+        stmts, bound = [], []
+        for m in mods:
+            names = rng.sample(IMPORTABLE[m], rng.randint(1, min(3, len(IMPORTABLE[m]))))
+            items = []
+            for nm in names:
+                spellings = rng.sample(["plain", "a", "b"], rng.choice([1, 1, 2, 2, 3]))
+                for sp in spellings:
+                    if sp == "plain":
+                        items.append(nm)
+                        bound.append(nm)
+                    else:
+                        alias = f"{nm}_{sp}{len(bound)}"
+                        items.append(f"{nm} as {alias}")
+                        bound.append(alias)
+            rng.shuffle(items)
+            while items:       # one statement for all of them, or several
+                take = rng.randint(1, len(items))
+                stmts.append(f"from {m} import " + ", ".join(items[:take]))
+                items = items[take:]
+        for plain in rng.sample(["sys", "re", "abc", "collections"], rng.randint(0, 2)):
+            stmts.append(f"import {plain}")
+            bound.append(plain)
+        rng.shuffle(stmts)
+        uses = "".join(f"print({b!r}, {b}.__name__)\n" for b in bound)
+        out.append((f"aliases:{k}", "\n".join(stmts) + "\n\n" + uses + "print('done')\n"))
+    return out
+
+
+SQL_ROWS = [("ann", "admin", "1", "a b"), ("bob", "admin", "2", "zz"), ("cy", "user", "3", "x"), ("di", "user", "1", "q"), ("ann", "user", "5", "a b")]
+SQL_COLS = ["name", "role", "phone", "note"]
+
+
+def sql_printf_programs(rng, n):
+    """printf-style queries: the left side of % is one to four string literals (implicit concatenation, `+`, a parenthesised
+    multi-line group, or a variable holding the first part) with zero to two quoted %s / %(key)s tokens each; the right side a
+    tuple, a single value or a dict display; called with the column values of an existing row, with a permutation of them, and
+    with values that match nothing"""
+    out = []
+    pre = ("import sqlite3\nconn = sqlite3.connect(':memory:')\ncursor = conn.cursor()\n"
+           "cursor.execute('CREATE TABLE users (name TEXT, role TEXT, phone TEXT, note TEXT)')\n"
+           f"cursor.executemany('INSERT INTO users VALUES (?, ?, ?, ?)', {SQL_ROWS!r})\n")
+    for k in range(n):
+        nlit = rng.randint(1, 4)
+        counts = [rng.randint(0, 2) for _ in range(nlit)]
+        if sum(counts) == 0:
+            counts[rng.randrange(nlit)] = 1
+        while sum(counts) > 4:
+            counts[counts.index(max(counts))] -= 1
+        total = sum(counts)
+        cols = rng.sample(SQL_COLS, total)
+        use_dict = rng.random() < 0.3
+        conds, ci = [], 0
+        pieces = []
+        first = True
+        for c in counts:
+            text = ""
+            n_items = c + (1 if rng.random() < 0.3 else 0)        # parameter conditions plus perhaps a literal one
+            slots = ["par"] * c + ["lit"] * (n_items - c)
+            rng.shuffle(slots)
+            for sl in slots:
+                text += "" if first else " AND "
+                if first:
+                    text = "SELECT name, phone FROM users WHERE " + text
+                    first = False
+                if sl == "par":
+                    col = cols[ci]
+                    ci += 1
+                    text += f"{col} = '%({col})s'" if use_dict else f"{col} = '%s'"
+                else:
+                    text += rng.choice(["1 = 1", "role != 'none'", "note != 'it''s'"])
+            if not slots:
+                text = " " if not first else "SELECT name, phone FROM users WHERE 1 = 1"
+                first = False
+            pieces.append(text)
+        pieces[-1] += rng.choice([" ORDER BY phone, name", " ORDER BY name, phone"])
+        q = rng.choice(['"', '"', "'"])
+        lits = [py_literal(t, q) for t in pieces]
+        style = rng.choice(["implicit", "plus", "multiline", "variable"]) if nlit > 1 else "single"
+        prefix_stmt = ""
+        if style in ("implicit", "single"):
+            left = " ".join(lits)
+        elif style == "plus":
+            left = "(" + " + ".join(lits) + ")"
+        elif style == "multiline":
+            left = "(\n        " + "\n        ".join(lits) + "\n    )"
+        else:
+            prefix_stmt = f"    head = {lits[0]}\n"
+            left = "(head + " + " + ".join(lits[1:]) + ")"
+        if use_dict:
+            right = "{" + ", ".join(f"{c!r}: {c}" for c in cols) + "}"
+        elif total == 1 and rng.random() < 0.5:
+            right = cols[0]
+        else:
+            right = "(" + ", ".join(cols) + ("," if total == 1 else "") + ")"
+        shape = rng.choice(["direct", "direct", "var"])
+        if shape == "direct":
+            body = f"def look({', '.join(cols)}):\n{prefix_stmt}    cursor.execute({left} % {right})\n    return cursor.fetchall()\n"
+        else:
+            body = f"def look({', '.join(cols)}):\n{prefix_stmt}    query = {left} % {right}\n    cursor.execute(query)\n    return cursor.fetchall()\n"
+        row = rng.choice(SQL_ROWS)
+        vals = [row[SQL_COLS.index(c)] for c in cols]
+        calls = f"print(look({', '.join(repr(v) for v in vals)}))\n"
+        if total > 1:
+            calls += f"print(look({', '.join(repr(v) for v in vals[1:] + vals[:1])}))\n"
+        calls += f"print(look({', '.join(repr('none') for _ in vals)}))\n"
+        out.append((f"printf:{style}:{'dict' if use_dict else 'tuple'}:{'-'.join(map(str, counts))}:{k}", pre + body + calls))
+    return out
 
 
 def sql_extra_programs():
@@ -429,7 +553,7 @@ def line_stage(ctx, base_jobs):
         kept = []
         for j in jobs:
             per[j["codemod"]] = per.get(j["codemod"], 0) + 1
-            if per[j["codemod"]] <= 36:
+            if per[j["codemod"]] <= (18 if j["codemod"] == "sql-parameterization" else 30):
                 kept.append(j)
         jobs = kept
     rewrite(ctx, jobs, "lines")
